@@ -31,10 +31,11 @@ def describe(sc):
     out = []
     if "threads" in sc:
         for t, th in enumerate(sc["threads"]):
-            pr = th.get("probe")
-            sel = [msel.render(x) for x in pr["sels"]] if pr else None
-            out.append(f"thread {t}: " + (f"{pr['kind']} {sel}; " if pr else "no probe; ")
-                       + "; ".join(f"call {c['fn']} tape={c.get('tape')}" for c in th["calls"]))
+            for rnd in th.get("rounds") or [{"probe": th.get("probe"), "calls": th.get("calls", [])}]:
+                pr = rnd.get("probe")
+                sel = [msel.render(x) for x in pr["sels"]] if pr else None
+                out.append(f"thread {t}: " + (f"{pr['kind']} {sel}; " if pr else "no probe; ")
+                           + "; ".join(f"call {c['fn']} tape={c.get('tape')}" for c in rnd["calls"]))
         out.append(f"schedule: {sc['sched']}")
         return out
     if sc.get("program"):
